@@ -60,6 +60,10 @@ func ConcOp(o string) stackage.Operator {
 		return stackage.ComparisonOperator(9)
 	case "user":
 		return userOp("~=")
+	case "like":
+		return userOp("like")
+	case "LIKE":
+		return userOp("LIKE")
 	case "emptytext":
 		return emptyTextOp{}
 	case "emptyctx":
